@@ -506,6 +506,10 @@ func (w *World) callMods(pkg *packages.Package, c *Ctx, call *ast.CallExpr, ms *
 	if sp, ok := w.Specs[key]; ok && sp.Flags["countresult"] != "" {
 		ms.heaps["NRT"] = true
 	}
+	if sp, ok := w.Specs[key]; ok && sp.Flags["lockeffect"] != "" {
+		// the callee leaves locks in another state than it found them: a loop around the call changes lock state
+		ms.heaps["LK"] = true
+	}
 	if _, inRepo := w.Funcs[key]; !inRepo {
 		if _, hasSpec := w.Specs[key]; !hasSpec {
 			// external callee without contract: it may call back the methods of an argument passed as an interface
